@@ -324,9 +324,25 @@ pub fn model_word_from_bits<I: Iterator<Item = u8>>(
 /// an arbitrary position: the node decoder never panics or overflows, and any
 /// child reference it returns points strictly backwards.
 fn class_total<const NB: usize>(code: u8, nbits: usize) {
+    class_total_k::<NB>(code, nbits, usize::MAX, 0)
+}
+
+/// `nat_at`/`max_k`: restrict the natural number starting at bit `nat_at` to a
+/// unary prefix of at most `max_k` ones (back references below 2^(2^max_k)); used
+/// by the quick tier so that the bit loops of `read_natural` stay short.
+fn class_total_k<const NB: usize>(code: u8, nbits: usize, nat_at: usize, max_k: usize) {
     let mut data: [u8; NB] = kani::any();
     let keep = 0xffu8 >> nbits;
     data[0] = (code << (8 - nbits)) | (data[0] & keep);
+    if nat_at != usize::MAX {
+        let mut all_ones = true;
+        let mut i = 0;
+        while i <= max_k {
+            all_ones &= refbit(&data, nat_at + i);
+            i += 1;
+        }
+        kani::assume(!all_ones);
+    }
     let len: usize = kani::any();
     kani::assume(len >= 1 && len <= NB);
     let index: usize = kani::any();
@@ -373,6 +389,24 @@ total!(k02_total_fail, 66, 0b01010, 5); // 64 entropy bytes
 total!(k02_total_witness, 2, 0b0111, 4);
 total!(k02_total_hidden, 34, 0b0110, 4); // 32 CMR bytes
 total!(k02_total_jet, 2, 0b11, 2);
+// classes with one back reference, restricted to a unary prefix of at most 3 ones (quick)
+macro_rules! total_k {
+    ($name:ident, $nb:expr, $code:expr, $nbits:expr, $at:expr, $k:expr) => {
+        #[kani::proof]
+        #[kani::unwind(5)]
+        #[kani::stub(std::sync::Arc::drop_slow, crate::hcons::stub_arc_drop_slow)]
+        #[kani::stub(simplicity::types::precomputed::nth_power_of_2, crate::vals::stub_nth_power_of_2)]
+        #[kani::stub(simplicity::Tmr::sum, crate::hcons::stub_tmr_sum)]
+        #[kani::stub(simplicity::Tmr::product, crate::hcons::stub_tmr_product)]
+        #[kani::stub(simplicity::Word::from_bits, model_word_from_bits)]
+        fn $name() {
+            class_total_k::<$nb>($code, $nbits, $at, $k)
+        }
+    };
+}
+total_k!(k02_total_unary_k3, 4, 0b001, 3, 5, 3); // injl injr take drop, reference < 2^16
+total_k!(k02_total_disconnect1_k3, 4, 0b01011, 5, 5, 3);
+total_k!(k02_total_word_k3, 4, 0b10, 2, 2, 3); // word length field < 2^16
 // classes with back references: the real read_natural on arbitrary bits (thorough)
 total!(k02_total_unary, 6, 0b001, 3); // injl injr take drop
 total!(k02_total_disconnect1, 6, 0b01011, 5);
